@@ -31,11 +31,20 @@ RULE = ("streams: flat = members of the theorems' family (one 01 group; fixed el
         "refill boundary is crossed; lrecl-none = lrecl None / 0 through RECFM N, V, VB (rows as with any lrecl) and F / FB (TypeError before any row). Files of 2-30 records (boundary 3-6), count vectors per record "
         "incl. 0 and max, each as RECFM N, V and VB; fixed = the same records padded to a common LRECL in a RECFM F / FB file. Per row: all table paths, refused index, first/last occurrence, item following each table, "
         "counters by name, plus sampled paths. Branch = 10*recfm + 1 (flat family) / 2 (outside) + 2 when the file is longer than the 32768-byte "
-        "buffer; 90 = lrecl missing. distinct = distinct case lines.")
+        "buffer; 90 = lrecl missing. distinct = distinct case lines. COUNTERS AS THEY OCCUR IN PRACTICE (Props/C06e.v): packed-counter = flat family "
+        "with COMP-3 / PACKED-DECIMAL counters (1-3 bytes, signed and unsigned pictures, sign nibbles C F A E); comp-counter = COMP / BINARY / COMP-4 "
+        "counters of 1-18 digits (2, 4, 8 bytes; never S9(4) / S9(9), the trigger of C04's K-signed-binary-size); zoned-signed-counter = PIC S9(k) "
+        "DISPLAY with zones C F A E; above-maximum = the same three kinds and plain digits with every count 1 or 3 above the declared OCCURS maximum, "
+        "the record long enough; each through RECFM N, V, VB and F; judged with the kind's decoder, the record checked with the encoders only, every "
+        "row also against the walk over Python's integers (branch + 100 * kind). negative-counter = RECFM V files of such records in which some "
+        "counters hold NEGATIVE values (zone / sign nibble D or B, two's complement FF..), counters declared before the first table, incl. the values "
+        "for which table start + item size * count = 0 (branch 60 + kind, + 4 when a table's counter is negative: finding K-negative-counter).")
 TRIVIAL_BRANCHES = [0]
 ASSUMPTIONS = [
     "widths of elementary items are given to the judge as the widths C04's specification lists; the emitted schema is compared with the model's (C01/C07)",
-    "ODO counters are unsigned DISPLAY digit items (EBCDIC F0..F9); their decoding is C02's concern (the judge reads the low nibbles)",
+    "ODO counters are unsigned DISPLAY digit items (EBCDIC F0..F9) whose low nibbles the judge reads - except in the streams packed-counter, "
+    "comp-counter, zoned-signed-counter, above-maximum and negative-counter, where the judge runs the model of estruct.unpack + int() "
+    "(Model/Counters.v) and checks the record with the specification's encoders",
     "file.read(n) on a regular file returns min(n, remaining) bytes",
     "the consumer takes each row before asking for the next one (used() is called when the generator is resumed)",
     "the loaded Schema mirrors the JSON document (C15)",
@@ -186,6 +195,213 @@ def gen_boundary(rng, target):
     return dict(id=1, kind="group", occ=None, redef=None, filler=False, kids=[c, mk(3, f"X({la})", la), t, mk(5, f"X({lz})", lz)])
 
 
+# ------------------------------------------------------------------ counters as they occur in practice (Props/C06e.v)
+
+_POS = [0xC, 0xF, 0xA, 0xE]
+_NEG = [0xD, 0xB]
+
+
+def enc_counter(kind, size, v, rng):
+    """the bytes a mainframe stores for the value v in a counter field of this kind (the judge checks them against Spec/Encode.v)"""
+    if kind == 3:
+        return v.to_bytes(size, "big", signed=True)
+    sign = rng.choice(_NEG) if v < 0 else rng.choice(_POS)
+    if kind == 1:
+        ds = f"{abs(v):0{size}d}"
+        return bytes([0xF0 + int(d) for d in ds[:-1]] + [(sign << 4) | int(ds[-1])])
+    if kind == 2:
+        ds = [int(d) for d in f"{abs(v):0{2 * size - 1}d}"] + [sign]
+        return bytes(16 * ds[i] + ds[i + 1] for i in range(0, len(ds), 2))
+    return bytes(0xF0 + int(d) for d in f"{v:0{size}d}")
+
+
+def counter_item(rng, kind, i, d):
+    """an elementary counter item of the kind: (pic, usage, size); d = digit positions of every COMP counter of this tree"""
+    if kind == 0:
+        k = rng.randint(1, 2)
+        pic, usage, size = ("9" * k if rng.random() < 0.5 else f"9({k})"), "DISPLAY", k
+    elif kind == 1:
+        k = rng.randint(1, 3)
+        pic, usage, size = f"S9({k})" if rng.random() < 0.6 else "S" + "9" * k, "DISPLAY", k + 1
+    elif kind == 2:
+        k = rng.choice([1, 2, 3, 3, 4, 5])
+        sg = "S" if rng.random() < 0.6 else ""
+        pic, usage, size = f"{sg}9({k})", rng.choice(["COMP-3", "COMP-3", "PACKED-DECIMAL", "COMPUTATIONAL-3"]), k // 2 + 1
+    else:
+        sg = "S" if (d not in (4, 9) and rng.random() < 0.6) else ""
+        pic, usage = f"{sg}9({d})", rng.choice(["COMP", "COMP", "BINARY", "COMP-4", "COMPUTATIONAL", "COMPUTATIONAL-4"])
+        size = 2 if d < 5 else 4 if d < 10 else 8
+    return dict(id=i, kind="elem", pic=pic, usage=usage, size=size, occ=None, redef=None, filler=False, kids=[], is_counter=True)
+
+
+def counter_capacity(kind, c):
+    if kind == 3:
+        return 99
+    if kind == 2:
+        return min(99, 10 ** (2 * c["size"] - 1) - 1)
+    if kind == 1:
+        return min(99, 10 ** c["size"] - 1)
+    return 10 ** c["size"] - 1
+
+
+def gen_counter_tree(rng, kind, counters_first):
+    """a member of flat_odo whose counters are of one kind; counters_first: every counter before the first table (negative stream)"""
+    nxt = [0]
+
+    def ids():
+        nxt[0] += 1
+        return nxt[0]
+    pool = elem_choices(False)
+    d = rng.choice([1, 2, 3, 3, 4, 4, 5, 7, 8, 9, 10, 12, 18]) if kind == 3 else 0
+    top = dict(id=ids(), kind="group", occ=None, redef=None, filler=False, kids=[])
+    counters = []
+    for _ in range(rng.randint(0, 2)):
+        top["kids"].append(_elem(ids, rng, pool))
+    for _ in range(rng.randint(1, 2) if counters_first else 1):
+        c = counter_item(rng, kind, ids(), d)
+        counters.append(c)
+        top["kids"].append(c)
+        if rng.random() < 0.4:
+            top["kids"].append(_elem(ids, rng, pool))
+    want_tables = rng.randint(1, 3)
+    tables = 0
+    while tables < want_tables:
+        r = rng.random()
+        if r < 0.28:
+            top["kids"].append(_elem(ids, rng, pool))
+        elif r < 0.38 and not counters_first:
+            c = counter_item(rng, kind, ids(), d)
+            counters.append(c)
+            top["kids"].append(c)
+        elif r < 0.45:
+            e = _elem(ids, rng, pool)
+            e["occ"] = ("times", rng.randint(1, 3))
+            top["kids"].append(e)
+        else:
+            c = rng.choice(counters)
+            mx = rng.choice([1, 2, 3, 4]) if counter_capacity(kind, c) >= 9 else rng.choice([1, 2, 3])
+            if rng.random() < 0.55:
+                e = _elem(ids, rng, pool)
+                e["occ"] = ("odo", c["id"], mx)
+                top["kids"].append(e)
+            else:
+                g = dict(id=ids(), kind="group", occ=("odo", c["id"], mx), redef=None, filler=False, kids=[])
+                for _ in range(rng.randint(1, 3)):
+                    g["kids"].append(_elem(ids, rng, pool))
+                top["kids"].append(g)
+            tables += 1
+    for _ in range(rng.choice([0, 1, 1, 2])):
+        top["kids"].append(_elem(ids, rng, pool))
+    return top, d
+
+
+def table_maxes(tree):
+    """counter id -> (smallest, largest) declared maximum among the tables that depend on it"""
+    out = {}
+    for k in tree["kids"]:
+        if k["occ"] is not None and k["occ"][0] == "odo":
+            lo, hi = out.get(k["occ"][1], (99, 0))
+            out[k["occ"][1]] = (min(lo, k["occ"][2]), max(hi, k["occ"][2]))
+    return out
+
+
+def signed_paths(tree, env):
+    """paths of the negative-counter stream: every child by name; of a table the occurrences 0, 1, count - 1, the refused index count
+    (max(0, count)) and what lies in an occurrence"""
+    out = [[]]
+    for k in tree["kids"]:
+        p = [[0, k["id"]]]
+        out.append(p)
+        if k["occ"] is not None:
+            c = k["occ"][1] if k["occ"][0] == "times" else env[k["occ"][1]]
+            inner = k["id"] if k["kind"] == "elem" else k["kids"][-1]["id"]
+            for i in sorted({0, 1, max(c - 1, 0), max(c, 0)}):
+                out.append(p + [[1, i]])
+            out.append(p + [[1, 0], [0, inner]])
+            if c > 1:
+                out.append(p + [[1, c - 1], [0, inner]])
+    return out[:PATH_CAP + 6]
+
+
+def witness_case():
+    """the witness of finding K-negative-counter (known_findings.json; Spec/CountersWf.v neg_tree / neg_rec):
+    01 R. 05 N PIC S9. 05 T PIC X(2) OCCURS 0 TO 5 DEPENDING ON N. 05 Z PIC X(3).  with N = F0 D2 (-2), then N = F0 D1 (-1: table
+    start 2 + item size 2 * -1 = 0, which Location.__init__ reads as no end), then N = F0 C2 (2: an ordinary record)"""
+    mk = lambda i, pic, size: dict(id=i, kind="elem", pic=pic, usage="DISPLAY", size=size, occ=None, redef=None, filler=False, kids=[])
+    n = mk(2, "S9", 2)
+    n["is_counter"] = True
+    t = mk(3, "X(2)", 2)
+    t["occ"] = ("odo", 2, 5)
+    tree = dict(id=1, kind="group", occ=None, redef=None, filler=False, kids=[n, t, mk(4, "X(3)", 3)])
+    envs = [{2: -2}, {2: -1}, {2: 2}]
+    recs = [bytes([0xF0, 0xD2, 0xC1, 0xC2, 0xC3]), bytes([0xF0, 0xD1, 0xC1, 0xC2, 0xC3]),
+            bytes([0xF0, 0xC2, 0xC1, 0xC2, 0xC3, 0xC4, 0xC5, 0xC6, 0xC7])]
+    _total, ctrs, _paths = layout(tree, {2: 0})
+    return tree, envs, recs, [signed_paths(tree, e) for e in envs], ctrs, [], 0
+
+
+def build_counter_case(c):
+    """(tree, envs, recs, per_row, counters, blocking, d) for the streams of Props/C06e.v"""
+    rng = random.Random(c["seed"])
+    kind, mode = c["ck"], c["mode"]
+    if c.get("witness"):
+        return witness_case()
+    tree, d = gen_counter_tree(rng, kind, counters_first=(mode == "neg"))
+    citems = {k["id"]: k for k in tree["kids"] if k.get("is_counter")}
+    maxes = table_maxes(tree)
+    nrec = rng.randint(2, 5) if mode == "neg" else pick_nrec(rng)
+    envs, recs, per_row, counters = [], [], [], None
+    pos = 0
+    for j in range(nrec):
+        env = {}
+        for cid, item in citems.items():
+            lo, hi = maxes.get(cid, (3, 3))
+            cap = counter_capacity(kind, item)
+            if mode == "above":
+                env[cid] = min(hi + rng.choice([1, 3]), cap)
+            else:
+                env[cid] = rng.choice([0, lo, rng.randint(0, lo), rng.randint(0, lo)])
+        lay_env = dict(env)
+        if mode == "neg":
+            # counters a table depends on: negative in most records (never in all: a file may be clean); the total below is the
+            # length of the record with max(0, c) elements - the property's reading of a count below zero
+            for cid in maxes:
+                r = rng.random()
+                if r < 0.55 and c["neg"]:
+                    env[cid] = -rng.choice([1, 1, 2, 2, 3, 4, 7, min(9, counter_capacity(kind, citems[cid]))])
+                lay_env[cid] = max(env[cid], 0)
+        total, ctrs, paths = layout(tree, lay_env)
+        if mode == "neg" and c["neg"] and rng.random() < 0.35:
+            # the value for which  table start + item size * count = 0  (Location.__init__ reads an end of 0 as no end)
+            off = 0
+            for k in tree["kids"]:
+                one = k["size"] if k["kind"] == "elem" else sum(x["size"] for x in k["kids"])
+                if k["occ"] is not None and k["occ"][0] == "odo" and off > 0 and off % one == 0 \
+                        and off // one <= counter_capacity(kind, citems[k["occ"][1]]):
+                    env[k["occ"][1]] = -(off // one)
+                    lay_env[k["occ"][1]] = 0
+                    break
+                cnt = 1 if k["occ"] is None else k["occ"][1] if k["occ"][0] == "times" else lay_env[k["occ"][1]]
+                off += one * cnt
+            total, ctrs, paths = layout(tree, lay_env)
+        r = bytearray(code(pos + i) for i in range(total))
+        for cid, _p, st, sz in ctrs:
+            r[st:st + sz] = enc_counter(kind, sz, env[cid], rng)
+        envs.append(env)
+        recs.append(bytes(r))
+        per_row.append(signed_paths(tree, env) if mode == "neg" else row_paths(tree, lay_env, paths, rng))
+        counters = ctrs
+        pos += total
+    blocking = []
+    if c["recfm"] == 2:
+        j = 0
+        while j < nrec:
+            k = min(rng.randint(1, 4), nrec - j)
+            blocking.append(k)
+            j += k
+    return tree, envs, recs, per_row, counters, blocking, d
+
+
 # ------------------------------------------------------------------ paths observed on every row
 
 
@@ -258,6 +474,25 @@ def inputs(ctx):
         recfm = i % 4
         yield "lrecl-none", dict(kind="flat" if (recfm == 3 or i % 8 < 4) else "nested", seed=rng.randrange(1 << 30), recfm=recfm,
                                  lrecl=None if (i // 4) % 2 == 0 else 0, no_lrecl=True)
+    yield from counter_inputs(ctx)
+
+
+def counter_inputs(ctx):
+    rng = ctx.rng
+    q = ctx.tier == "quick"
+    for name, kind, n in (("packed-counter", 2, 24 if q else 400), ("comp-counter", 3, 24 if q else 400),
+                          ("zoned-signed-counter", 1, 12 if q else 200)):
+        for i in range(n):
+            yield name, dict(kind="ctr", ck=kind, mode="clean", seed=rng.randrange(1 << 30), recfm=i % 4,
+                             lrecl=None if i % 4 == 3 else rng.choice([1, 80, 32768]))
+    for i in range(24 if q else 400):
+        yield "above-maximum", dict(kind="ctr", ck=[2, 3, 1, 0][i % 4], mode="above", seed=rng.randrange(1 << 30), recfm=(i // 4) % 4,
+                                    lrecl=None if (i // 4) % 4 == 3 else rng.choice([1, 80, 32768]))
+    yield "negative-counter", dict(kind="ctr", ck=1, mode="neg", neg=True, witness=True, seed=0, recfm=1, lrecl=80)
+    for i in range(36 if q else 600):
+        # every sixth file holds no negative counter at all: the same path without any exemption
+        yield "negative-counter", dict(kind="ctr", ck=[1, 2, 3][i % 3], mode="neg", neg=(i % 6 != 5), seed=rng.randrange(1 << 30), recfm=1,
+                                       lrecl=rng.choice([1, 80, 32768]))
 
 
 def pick_nrec(rng):
@@ -267,6 +502,8 @@ def pick_nrec(rng):
 
 
 def build_case(c):
+    if c["kind"] == "ctr":
+        return build_counter_case(c)[:6]
     rng = random.Random(c["seed"])
     if c["kind"] == "bincounter":
         tree = gen_bincounter(rng)
@@ -385,6 +622,14 @@ def obs_row(row, names, paths, counters, shared=None):
 
 
 def observe(ctx, c):
+    case = _observe(ctx, c)
+    if c["kind"] == "ctr":
+        # eleventh field: (kind of counter, digit positions of the COMP counters, 1 = signed count vectors)
+        case = case + [[c["ck"], build_counter_case(c)[6], 1 if c["mode"] == "neg" else 0]]
+    return case
+
+
+def _observe(ctx, c):
     from stingray.cobol_parser import schema_iter
     from stingray.schema_instance import SchemaMaker, EBCDIC
     from stingray.workbook import COBOL_EBCDIC_File
